@@ -933,6 +933,11 @@ class Reader:
                 f = sp.Min if base == 'min' else sp.Max
                 out.append((f(*vals) if all(isinstance(v, sp.Basic) for v in vals) else Opaque(pp(e)), s2))
             return out
+        if k == 'Call' and base == 'clamp' and fq.startswith('std::') and len(args) == 3:
+            out = []
+            for (vals, s2) in self.evs(args, st, ctx):
+                out.append((sp.Max(vals[1], sp.Min(vals[0], vals[2])) if all(isinstance(v, sp.Basic) for v in vals) else Opaque(pp(e)), s2))
+            return out
         # overloaded operators on scalar-like library values (std::chrono durations ...): same algebra
         if k == 'Op' and e['op'] in ('+', '-', '*', '/', '<', '>', '<=', '>=', '==', '!=') and len(e.get('args', [])) == 2 \
                 and not e.get('inrepo'):
